@@ -108,3 +108,22 @@ func (e *wrapErr) Error() string { return e.msg }
 func (e *wrapErr) Unwrap() error { return e.err }
 
 func NewWrapErr(msg string, err error) error { return &wrapErr{msg, err} }
+
+// Setenv is the model of os.Setenv: the environment itself is not kept (coraza reads ENV from
+// its own collection), only the argument check of the real function.
+func Setenv(key, value string) error {
+	if len(key) == 0 {
+		return NewErr("setenv: invalid argument")
+	}
+	for i := 0; i < len(key); i++ {
+		if key[i] == '=' || key[i] == 0 {
+			return NewErr("setenv: invalid argument")
+		}
+	}
+	for i := 0; i < len(value); i++ {
+		if value[i] == 0 {
+			return NewErr("setenv: invalid argument")
+		}
+	}
+	return nil
+}
